@@ -117,18 +117,14 @@ def r1(ctx, chk):
     chk.ob(rule, "_parser.num_directives == %s" % want, nd == want, "is %s" % nd,
            key={"table": "num_directives", "construct": "value"}, file="dateparser/parser.py", function="_parser", line=None)
     # no-spaces parser: key and the literal inside its sorting lambda agree; keys == chart values
-    nsp = ix.func("dateparser.parser:_no_spaces_parser.__init__")
-    df = None
-    for n in iter_own_nodes(nsp.node):
-        if isinstance(n, ast.Assign) and any(isinstance(t_, ast.Attribute) and t_.attr == "date_formats" for t_ in n.targets):
-            df = n.value
-    if not isinstance(df, ast.Dict):
+    from .util import nsp_order_table
+    tbl, nsp = nsp_order_table(ctx)
+    if tbl is None:
         raise AnalysisError(rule, "_no_spaces_parser.date_formats dict not found")
-    for k, v in zip(df.keys, df.values):
-        lits = {c.value for c in ast.walk(v) if isinstance(c, ast.Constant) and isinstance(c.value, str) and c.value.startswith("%")}
-        chk.ob(rule, "_no_spaces_parser.date_formats[%s] prefers formats starting with the same order" % k.value,
-               lits == {k.value}, "sort key uses %s" % sorted(lits), key={"table": "nsp.date_formats", "construct": k.value},
-               file=nsp.file, function=nsp.qual, line=v.lineno)
+    for k_, lits in tbl.items():
+        chk.ob(rule, "_no_spaces_parser.date_formats[%s] prefers formats starting with the same order" % k_,
+               lits == {k_}, "sort key uses %s" % sorted(lits), key={"table": "nsp.date_formats", "construct": k_},
+               file=nsp.file, function=nsp.qual, line=nsp.node.lineno)
     NS = ix.cls("dateparser.parser:_no_spaces_parser")
     dflt = NS.attrs.get("_default_order")
     chk.ob(rule, "_no_spaces_parser default order is MDY", dflt is not None and ast.unparse(dflt) == "resolve_date_order('MDY')",
